@@ -211,7 +211,7 @@ def render_node_contract(prop, sfx, bound, replay_code):
         caller_addrs = {caller.addr} | {v.addr for v in c.st.deref(caller).fields.values() if isinstance(v, VRef)}
         c.call(caller, c.obj("io:StringIO", "buffer", __text__=c.str("out")), self_val=self)
         if bound == "array":
-            c.bounded_loop(0, 3)   # the ForLoop iterator over a 2-item spine is exhausted after 2 steps (exact)
+            c.unroll_iterators = 3   # the ForLoop iterator over a 2-item spine is exhausted after 2 steps (exact)
 
         def post(r):
             copies = [e for e in r.st.log if e[0] == "copy"]
